@@ -468,6 +468,75 @@ fn run_undrained(trace: bool) -> CaseResult {
     res
 }
 
+// ---------------------------------------------------------------- shutdown while a client is behind with reading
+
+/// A browse and a hostname search are open and their client has not read anything yet; `k` events
+/// are queued on each channel behind SearchStarted (the channels hold 10).  Then shutdown.  The client
+/// is slow but alive: it reads as soon as the daemon waits for it.  Every channel must still end with
+/// SearchStopped as its last event, and the shutdown caller gets Shutdown.
+pub fn run_full_channel(prop: &str, k: u64, trace: bool) -> CaseResult {
+    let mut res = CaseResult::default();
+    let mut w = World::one(lay_v4());
+    w.trace = trace;
+    w.release_when_blocked = true;
+    w.ds[0].h.set_ip_check_interval(0).unwrap();
+    w.poke(0);
+    let rx = w.ds[0].h.browse("_t._tcp.local.").unwrap();
+    let b = w.add_browse(0, rx);
+    let rx = w.ds[0].h.resolve_hostname("hh.local.", None).unwrap();
+    let h = w.add_host(0, rx);
+    w.ds[0].hold_b.push(b);
+    w.ds[0].hold_h.push(h);
+    w.poke(0);
+    // k new instances (PTR only: one ServiceFound each) and k addresses of the searched host (one
+    // AddressesFound each) in one packet
+    let ty = n("_t._tcp.local");
+    let mut recs = vec![];
+    for j in 0..k {
+        recs.push(ptr(&ty, &n(&format!("i{j}._t._tcp.local")), 120));
+        recs.push(a(&n("hh.local"), [10, 0, 0, 100 + j as u8], 120));
+    }
+    if !recs.is_empty() {
+        w.deliver(0, IF0, PEER0, build(&response(recs)));
+    }
+    let rx = w.ds[0].h.shutdown();
+    for _ in 0..8 {
+        if !matches!(w.ds[0].state, StepOut::Parked) {
+            break;
+        }
+        w.step(0);
+    }
+    w.ds[0].hold_b.clear();
+    w.ds[0].hold_h.clear();
+    w.drain(0);
+    res.count("full_channel_cases", 1);
+    let ctx = format!("{k} events queued behind SearchStarted on each channel");
+    let bl: Vec<BEv> = bevs(&w, 0, b, 0).into_iter().map(|x| x.1).collect();
+    let hl: Vec<HEv> = hevs(&w, 0, h, 0).into_iter().map(|x| x.1).collect();
+    if !matches!(bl.last(), Some(BEv::Stopped(_))) {
+        res.viols.push(viol(format!("{prop}|slow-client|browse-channel-does-not-end-with-SearchStopped"), format!("{ctx}: {} events, last {:?}", bl.len(), bl.last())));
+    }
+    if !matches!(hl.last(), Some(HEv::Stopped(_))) {
+        res.viols.push(viol(format!("{prop}|slow-client|hostname-channel-does-not-end-with-SearchStopped"), format!("{ctx}: {} events, last {:?}", hl.len(), hl.last())));
+    }
+    if bl.iter().filter(|e| matches!(e, BEv::Found(..))).count() as u64 != k {
+        res.viols.push(viol(format!("{prop}|slow-client|ServiceFound-events-lost"), format!("{ctx}: {:?}", bl.iter().map(|e| format!("{e:?}")).collect::<Vec<_>>())));
+    }
+    match rx.map(|r| r.try_recv()) {
+        Ok(Ok(DaemonStatus::Shutdown)) => {}
+        other => res.viols.push(viol(format!("{prop}|slow-client|shutdown-caller-did-not-receive-Shutdown"), format!("{ctx}: {other:?}"))),
+    }
+    if let Some(f) = daemon_fault(&w, 0) {
+        if f.contains("panicked") || f.contains("park within") {
+            res.viols.push(viol(format!("{prop}|slow-client|daemon-fault"), format!("{ctx}: {f}")));
+        }
+    }
+    res.nontrivial = true;
+    res.transitions = w.steps;
+    res.outcome = fnv128(format!("{bl:?}{hl:?}").as_bytes());
+    res
+}
+
 pub fn check(tier: &str) -> i32 {
     let mut rep = Report::new("C14", tier, "model_checking");
     let thorough = rep.thorough();
@@ -522,6 +591,15 @@ pub fn check(tier: &str) -> i32 {
         };
         rep.run_part(&three, Duration::from_secs(3000));
     }
+    let fc = FnPart {
+        name: "shutdown-with-a-slow-client".into(),
+        rule: "a browse and a hostname search whose client has read nothing; k in {0, 3, 8, 9, 10, 12} events queued behind SearchStarted on each channel (capacity 10), then shutdown; the client reads as soon as the daemon waits for it; every channel must end with SearchStopped, nothing may be lost".into(),
+        n: 6,
+        describe: Box::new(|i| format!("k = {}", [0, 3, 8, 9, 10, 12][i as usize])),
+        run: Box::new(|i, tr| run_full_channel("C14", [0, 3, 8, 9, 10, 12][i as usize], tr)),
+    };
+    rep.run_part(&fc, Duration::from_secs(120));
+    rep.require("shutdown-with-a-slow-client", "full_channel_cases");
     let und = FnPart {
         name: "deviation-undrained-channel".into(),
         rule: "deviation from the default environment: a browse receiver is held and never read while 14 instances are announced".into(),
